@@ -1,7 +1,19 @@
 use crate::idmap::InternalNodeId;
 use crate::property::PropertyValue;
 use crate::snapshot::{EdgeKey, L0Run, RelTypeId};
+#[cfg(not(nervusdb_verif))]
 use std::collections::{BTreeMap, BTreeSet, HashMap};
+#[cfg(nervusdb_verif)]
+use std::collections::{BTreeMap, BTreeSet};
+
+/// Under the verification guard the memtable maps use a fixed-key hasher so that the
+/// order of WAL records inside a commit is a function of the history only.
+#[cfg(nervusdb_verif)]
+type HashMap<K, V> = std::collections::HashMap<
+    K,
+    V,
+    std::hash::BuildHasherDefault<std::collections::hash_map::DefaultHasher>,
+>;
 
 #[derive(Debug, Default)]
 pub struct MemTable {
